@@ -329,7 +329,19 @@ Definition check_cat (T : templates) (c : cat_case) : list nat :=
   tag3 (expr_agree 2 envs (categorical T (kc_cats c) (kc_mc c) (kc_alt c)) (kc_expr c)) 5 ++
   (* at the most common level the effect is 1 *)
   tag (forallb (fun m => match eval (env_of (set_env m s_cov (kc_mc c))) std_fi (kc_expr c) with
-                         | Some v => Qeq_bool v 1 | None => false end) (kc_envs c)) 16.
+                         | Some v => Qeq_bool v 1 | None => false end) (kc_envs c)) 16 ++
+  (* 17: at every other (non-missing) level the effect is the DOCUMENTED one: 1 + theta (cat), theta (cat2); one theta
+     when there are exactly two levels, theta<i> (i = 1-based position of the level) otherwise *)
+  let two := Nat.eqb (length (kc_cats c)) 2 in
+  tag (forallb (fun m =>
+         forallb (fun ic : nat * option Q =>
+           match snd ic with
+           | Some v =>
+               if Qeq_bool v (kc_mc c) then true
+               else oq_eqb (eval (env_of (set_env m s_cov v)) std_fi (kc_expr c))
+                           (eval (env_of m) std_fi (doc_cat_other_value two (kc_alt c) (fst ic)))
+           | None => true
+           end) (combine (seq 1 (length (kc_cats c))) (kc_cats c))) (kc_envs c)) 17.
 
 (* ---------------------------------------------------------------------------------------------------- *)
 (* "the model function is unchanged at these points": eta transformations / IOV at eta = 0, BLQ above LLOQ *)
